@@ -39,6 +39,33 @@ impl GenCfg {
             adjacent_repeats: false,
         }
     }
+    /// scale instead of small scope: many distinct names in one element / many occurrences / deep nesting / long names
+    pub fn scaled(r: &mut Rng) -> GenCfg {
+        let mut g = GenCfg::plain();
+        match r.below(4) {
+            0 => {
+                g.names = (0..18).map(|i| format!("k{}", (b'a' + i as u8) as char)).collect();
+                g.attrs = (0..14).map(|i| format!("at{}", (b'a' + i as u8) as char)).collect();
+                g.max_kids = 18;
+                g.max_depth = 2;
+            }
+            1 => {
+                g.names = vec!["a".into(), "b".into()];
+                g.max_kids = 30;
+                g.max_depth = 2;
+            }
+            2 => {
+                g.names = vec!["a".into(), "b".into(), "c".into()];
+                g.max_kids = 2;
+                g.max_depth = 12;
+            }
+            _ => {
+                g.names = vec!["a_rather_long_element_name_that_goes_on_and_on_1".into(), "AnotherQuiteLongElementNameInCamelCaseForGoodMeasure".into(), "x".into()];
+                g.attrs = vec!["an-attribute-with-a-long-hyphenated-name".into(), "p".into()];
+            }
+        }
+        g
+    }
     pub fn rich() -> GenCfg {
         GenCfg {
             names: RICH.iter().map(|s| s.to_string()).collect(),
@@ -57,8 +84,17 @@ fn decoration(r: &mut Rng, out: &mut Vec<u8>) {
     }
 }
 
-fn text(r: &mut Rng, out: &mut Vec<u8>, n: &mut usize) {
+fn text(r: &mut Rng, out: &mut Vec<u8>, n: &mut usize, entities: bool) {
     *n += 1;
+    if entities && r.chance(1, 6) {
+        // character data that consists of (or contains) references the reader does not resolve: still character data
+        match r.below(3) {
+            0 => out.extend_from_slice(b"&nbsp;"),
+            1 => out.extend_from_slice(format!("AT&T t{:03}", n).as_bytes()),
+            _ => out.extend_from_slice(b"&co;&unknown;"),
+        }
+        return;
+    }
     match r.below(4) {
         0 => out.extend_from_slice(format!("<![CDATA[c{:03}]]>", n).as_bytes()),
         1 => out.extend_from_slice(format!("t{:03} &amp; more", n).as_bytes()),
@@ -118,7 +154,7 @@ fn element(r: &mut Rng, g: &GenCfg, name: &str, depth: usize, out: &mut Vec<u8>,
     }
     let mixed_ok = !g.data_oriented || kids.is_empty();
     if want_text && mixed_ok && r.chance(1, 2) {
-        text(r, out, n);
+        text(r, out, n, !g.data_oriented);
     }
     for (i, k) in kids.iter().enumerate() {
         if *budget == 0 {
@@ -131,11 +167,11 @@ fn element(r: &mut Rng, g: &GenCfg, name: &str, depth: usize, out: &mut Vec<u8>,
         }
         element(r, g, k, depth + 1, out, n, budget);
         if want_text && mixed_ok && i + 1 < kids.len() && r.chance(1, 6) {
-            text(r, out, n);
+            text(r, out, n, !g.data_oriented);
         }
     }
     if want_text && mixed_ok && (kids.is_empty() || r.chance(1, 2)) {
-        text(r, out, n);
+        text(r, out, n, !g.data_oriented);
     }
     if !kids.is_empty() {
         indent(out, depth);
